@@ -21,7 +21,7 @@ RULE = ("a file database created from a small GFF3 hierarchy (gene, mRNA, exons 
         "in-memory counters, the content of the .bak file, the outcome class, and - through the same long-lived FeatureDB object - "
         "db[id] for a pool of present and absent ids, count_features_of_type per type, and the ids iterated.  non-trivial = history with >= 2 steps that "
         "change the file; distinct by the sequence of operation kinds")
-ASSUMPTIONS = ["GFF3-dialect databases (update routes by the stored dialect; the GTF importer's dispatch is C03/C05's subject)",
+ASSUMPTIONS = ["GFF3- and GTF-dialect databases (update routes by the stored dialect; GTF updates re-derive transcripts and genes over the whole table)",
                "the exception raised by a failing feature source is a RuntimeError (class Other)"]
 STRATS = ["create_unique", "merge", "replace", "error", "warning"]
 
@@ -59,6 +59,39 @@ ALPHA = [
     {"op": "delete", "ids": ["g1", "exon_1"], "form": "list", "backup": True},
     {"op": "addrel", "p": "g1", "c": "e1", "l": 2, "retype": False},
     {"op": "addrel", "p": "m1", "c": "e1", "l": 3, "retype": True},
+    {"op": "reopen"},
+]
+
+
+def gtf_exon(t, g, s, e, strand="+", type_="exon"):
+    return imp.mkfeat(seqid="chr2", type_=type_, s=s, e=e, strand=strand, attrs=[["gene_id", [g]], ["transcript_id", [t]]])
+
+
+def gtf_init():
+    return [gtf_exon("T1", "G1", 100, 150), gtf_exon("T1", "G1", 200, 260), gtf_exon("T2", "G1", 120, 180),
+            gtf_exon("T1", "G1", 110, 140, type_="CDS")]
+
+
+def gtf_batch(n):
+    if n == 1:
+        return [gtf_exon("T1", "G1", 300, 350), gtf_exon("T3", "G1", 400, 450)]        # extends T1/G1, adds T3
+    if n == 2:
+        return [gtf_exon("T9", "G9", 1000, 1100, strand="-")]                         # a new gene
+    if n == 3:
+        return [gtf_exon("T2", "G1", 120, 180), gtf_exon("T2", "G1", 10, 50)]         # a repeated exon line + an earlier exon
+    return []
+
+
+def gtf_upd(n, strategy="create_unique", checklines=10, fail_at=None, backup=True):
+    return {"op": "update", "feats": gtf_batch(n), "strategy": strategy, "checklines": checklines, "fail_at": fail_at,
+            "backup": backup}
+
+
+GTF_ALPHA = [
+    gtf_upd(1), gtf_upd(2), gtf_upd(3, "merge"), gtf_upd(1, "merge"), gtf_upd(0), gtf_upd(1, checklines=0, fail_at=1),
+    {"op": "delete", "ids": ["T1"], "form": "str", "backup": True},
+    {"op": "delete", "ids": ["G1", "exon_1"], "form": "list", "backup": False},
+    {"op": "addrel", "p": "G1", "c": "exon_2", "l": 3, "retype": False},
     {"op": "reopen"},
 ]
 
@@ -107,6 +140,13 @@ def gen_cases(rng, tier):
     nr = 500 if tier == "quick" else 8000
     for _ in range(nr):
         cases.append({"ops": [gen_op(rng) for _ in range(rng.choice([2, 3, 4, 6, 8]))]})
+    # GTF-dialect databases: update() routes to the GTF importer, which re-derives transcripts and genes
+    gdepth = 2 if tier == "quick" else 3
+    for n in range(1, gdepth + 1):
+        for seq in itertools.product(range(len(GTF_ALPHA)), repeat=n):
+            cases.append({"kind": "gtf", "ops": [GTF_ALPHA[i] for i in seq]})
+    for _ in range(150 if tier == "quick" else 3000):
+        cases.append({"kind": "gtf", "ops": [rng.choice(GTF_ALPHA) for _ in range(rng.choice([3, 4, 6]))]})
     return cases
 
 
@@ -159,8 +199,8 @@ def dump_file(path):
     return t
 
 
-POOL = ["g1", "m1", "e1", "exon_1", "exon_2", "g2", "m2", "x1", "nope"]
-TYPES = [None, "gene", "mRNA", "exon", "CDS", "retyped"]
+POOL = ["g1", "m1", "e1", "exon_1", "exon_2", "g2", "m2", "x1", "nope", "G1", "T1", "T2", "T3", "G9", "T9", "CDS_1"]
+TYPES = [None, "gene", "mRNA", "exon", "CDS", "retyped", "transcript"]
 
 
 def feature_row(f):
@@ -202,9 +242,20 @@ def run_impl(c):
     db = None
     try:
         dbfn = os.path.join(d, "h.db")
+        gtf = c.get("kind") == "gtf"
+        dialect = None
+        if gtf:
+            from gffutils import constants
+            dialect = dict(constants.dialect)
+            dialect.update({"fmt": "gtf", "keyval separator": " ", "quoted GFF2 values": True, "field separator": "; ",
+                            "trailing semicolon": True})
         try:
-            db = gffutils.create_db([imp.to_feature(x) for x in init_feats()], dbfn, merge_strategy="create_unique",
-                                    verbose=False)
+            if gtf:
+                db = gffutils.create_db([imp.to_feature(x, dialect) for x in gtf_init()], dbfn, dialect=dialect,
+                                        merge_strategy="create_unique", verbose=False)
+            else:
+                db = gffutils.create_db([imp.to_feature(x) for x in init_feats()], dbfn, merge_strategy="create_unique",
+                                        verbose=False)
             out["created"] = ["ok", dump_file(dbfn)]
         except Exception as ex:
             out["created"] = ["err", L.err_class(ex)]
@@ -213,7 +264,7 @@ def run_impl(c):
             res = ["ok", None]
             try:
                 if o["op"] == "update":
-                    objs = [imp.to_feature(x) for x in o["feats"]]
+                    objs = [imp.to_feature(x, dialect) for x in o["feats"]]
                     data = objs if o["fail_at"] is None or o["fail_at"] > len(objs) else failing_source(objs, o["fail_at"])
                     db.update(data, make_backup=o["backup"], merge_strategy=o["strategy"], checklines=o["checklines"],
                               verbose=False)
@@ -260,12 +311,13 @@ def run_impl(c):
     return out
 
 
-def coq_op(o):
+def coq_op(o, gtf=False):
     if o["op"] == "update":
         rows = L.lst([imp.coq_row(x) for x in o["feats"]], "row")
         fail = "(@None nat)" if o["fail_at"] is None else "(Some %d%%nat)" % o["fail_at"]
-        return "(OpUpdate %s %s (SList [KAttr IDK]) %d%%nat %s %s)" % (rows, imp.STRAT[o["strategy"]], o["checklines"], fail,
-                                                                     L.b(o["backup"]))
+        return "(OpUpdate %s %s %s %d%%nat %s %s)" % (rows, imp.STRAT[o["strategy"]],
+                                                      "default_gtf_spec" if gtf else "(SList [KAttr IDK])", o["checklines"], fail,
+                                                      L.b(o["backup"]))
     if o["op"] == "delete":
         return "(OpDelete %s %s)" % (L.ss(o["ids"]), L.b(o["backup"]))
     if o["op"] == "addrel":
@@ -285,12 +337,14 @@ def coq_step(s):
 
 
 def coq_case(c, o):
-    init = L.lst([imp.coq_row(x) for x in init_feats()], "row")
-    return "CHist %s %s %s %s" % (init, L.lst([coq_op(x) for x in c["ops"]], "op"), imp.res_tables(o["created"]),
-                                  L.lst([coq_step(s) for s in o.get("steps", [])], "stepobs"))
+    gtf = c.get("kind") == "gtf"
+    init = L.lst([imp.coq_row(x) for x in (gtf_init() if gtf else init_feats())], "row")
+    return "CHist %s %s %s %s %s" % ("KGtf" if gtf else "KGff", init, L.lst([coq_op(x, gtf) for x in c["ops"]], "op"),
+                                     imp.res_tables(o["created"]), L.lst([coq_step(s) for s in o.get("steps", [])], "stepobs"))
 
 
 def labels(c, o):
+    yield "dialect=" + c.get("kind", "gff3")
     yield "len=%d" % len(c["ops"])
     for x in c["ops"]:
         if x["op"] == "update":
@@ -311,7 +365,7 @@ def nontrivial_key(c, o):
         prev = s["tables"]
     if changed < 2:
         return None
-    return tuple((x["op"], x.get("strategy"), x.get("fail_at") is not None) for x in c["ops"])
+    return (c.get("kind", "gff3"),) + tuple((x["op"], x.get("strategy"), x.get("fail_at") is not None) for x in c["ops"])
 
 
 def explain(c, o):
